@@ -35,6 +35,7 @@ type Case struct {
 	Tier  string `json:"tier"` // inproc | subproc | nav
 	Msgs  []Msg  `json:"msgs"`
 	Frags []int  `json:"frags"` // fragment sizes of the client->server byte stream, used cyclically; empty = one write per frame
+	Hdr   int    `json:"hdr,omitempty"` // header style of the client's frames (0 plain, 1/2 with Content-Type after/before Content-Length)
 }
 
 type Result struct {
@@ -59,6 +60,20 @@ const ghostURI = "file:///w/never-opened.num"
 
 func frame(body []byte) []byte {
 	return append([]byte(fmt.Sprintf("Content-Length: %d\r\n\r\n", len(body))), body...)
+}
+
+// frameStyled is what an editor may legally send as well: the optional
+// Content-Type header of the base protocol, before or after Content-Length.
+func frameStyled(body []byte, style int) []byte {
+	const ct = "Content-Type: application/vscode-jsonrpc; charset=utf-8\r\n"
+	cl := fmt.Sprintf("Content-Length: %d\r\n", len(body))
+	switch style % 3 {
+	case 1:
+		return append([]byte(cl+ct+"\r\n"), body...)
+	case 2:
+		return append([]byte(ct+cl+"\r\n"), body...)
+	}
+	return frame(body)
 }
 
 func (m Msg) method() string {
@@ -308,6 +323,9 @@ func genHistory(r *rand.Rand, tier string) Case {
 				}
 			}
 		}
+	}
+	if r.IntN(3) == 0 {
+		c.Hdr = 1 + r.IntN(2)
 	}
 	// transport fragmentation plan
 	switch r.IntN(5) {
